@@ -145,29 +145,42 @@ func (c *TreeCacheClientImpl) ReadCurrentUpdatesHighestPriorities(ctx context.Co
 
 func (c *TreeCacheClientImpl) ReadUpdatesOwner(ctx context.Context, owner string) UpdateSlice {
 
+	// the cache honours the owner of a read only together with a priority,
+	// hence the owners entries are read per priority they are stored under.
 	ownerPaths := c.getPathsOfOwner(ctx, owner)
 
-	return c.Read(ctx, &cache.Opts{
-		Store: cachepb.Store_INTENDED,
-		Owner: owner,
-	}, ownerPaths.paths.ToStringSlice())
+	result := UpdateSlice{}
+	for prio, paths := range ownerPaths {
+		result = append(result, c.Read(ctx, &cache.Opts{
+			Store:    cachepb.Store_INTENDED,
+			Owner:    owner,
+			Priority: prio,
+		}, paths.paths.ToStringSlice())...)
+	}
+	return result
 }
 
-func (c *TreeCacheClientImpl) getPathsOfOwner(ctx context.Context, owner string) *PathSet {
+// getPathsOfOwner returns the paths the given owner has entries for, grouped by the priority they are stored under.
+func (c *TreeCacheClientImpl) getPathsOfOwner(ctx context.Context, owner string) map[int32]*PathSet {
 	if c.intendedStoreIndex == nil {
 		c.RefreshCaches(ctx)
 	}
 
-	p := NewPathSet()
+	result := map[int32]*PathSet{}
 	for _, keyMeta := range c.intendedStoreIndex {
 		for _, k := range keyMeta {
 			if k.Owner() == owner {
+				p, exists := result[k.Priority()]
+				if !exists {
+					p = NewPathSet()
+					result[k.Priority()] = p
+				}
 				// if the key is not yet listed in the keys slice, add it otherwise skip
 				p.AddPath(k.GetPath())
 			}
 		}
 	}
-	return p
+	return result
 }
 
 // ReadRunning reads the value from running if the value does not exist, nil is returned
